@@ -393,7 +393,9 @@ func (w *World) Ctx() sdk.Context {
 	if w.InBlock {
 		return w.App.NewContext(false, w.header())
 	}
-	return w.App.NewContext(true, w.header())
+	// between blocks: the last COMMITTED state (not the CheckTx state, which admitted CheckTx calls advance)
+	ms := w.App.CommitMultiStore().CacheMultiStore()
+	return sdk.NewContext(ms, w.header(), false, log.NewNopLogger())
 }
 
 type CallRes struct {
